@@ -1132,7 +1132,16 @@ impl WorldA {
             spenders.entry(u.clone()).or_default();
         }
         let mut viols: Vec<(String, String, String)> = vec![];
-        for (o, rows) in owners.iter().take(6) {
+        // the longest listings first (they are the ones that need pages), then a few short ones
+        let by_len = |m: &BTreeMap<String, Vec<AllowRow>>| -> Vec<(String, Vec<AllowRow>)> {
+            let mut v: Vec<(String, Vec<AllowRow>)> = m.iter().map(|(k, r)| (k.clone(), r.clone())).collect();
+            v.sort_by(|a, b| b.1.len().cmp(&a.1.len()).then(a.0.cmp(&b.0)));
+            v.truncate(6);
+            v
+        };
+        let owners_probe = by_len(&owners);
+        let spenders_probe = by_len(&spenders);
+        for (o, rows) in owners_probe.iter() {
             let r = check_paging::<AllowRow, String>(
                 rows,
                 &|cur, lim| {
@@ -1156,7 +1165,7 @@ impl WorldA {
                 viols.push(("all_allowances".into(), c, d));
             }
         }
-        for (s, rows) in spenders.iter().take(6) {
+        for (s, rows) in spenders_probe.iter() {
             let r = check_paging::<AllowRow, String>(
                 rows,
                 &|cur, lim| {
@@ -1182,7 +1191,7 @@ impl WorldA {
         }
         // every listed row is a *current* item: it must agree with the point query for the same key
         let mut cross: Vec<(String, String)> = vec![];
-        for (o, rows) in owners.iter().take(6) {
+        for (o, rows) in owners_probe.iter() {
             for (sp, amt, e) in rows.iter().take(12) {
                 if let Ok(a) = chain.query::<cw20::AllowanceResponse>("token", &json!({"allowance":{"owner":o,"spender":sp}})) {
                     if (a.allowance.u128(), a.expires) != (*amt, *e) {
@@ -1191,7 +1200,7 @@ impl WorldA {
                 }
             }
         }
-        for (sp, rows) in spenders.iter().take(6) {
+        for (sp, rows) in spenders_probe.iter() {
             for (o, amt, e) in rows.iter().take(12) {
                 if let Ok(a) = chain.query::<cw20::AllowanceResponse>("token", &json!({"allowance":{"owner":o,"spender":sp}})) {
                     if (a.allowance.u128(), a.expires) != (*amt, *e) {
